@@ -60,7 +60,7 @@ var c20Dims = []struct {
 	vals []string
 }{
 	{"key", []string{"absent", "short", "notb64", "crlf", "short31", "long33", "long64"}},
-	{"ingress", []string{"http-localhost", "absent", "ftp", "garbage", "nohost", "https+localhost", "http-localhost-upper", "http-localhost-prefix", "http-localhost+prefix", "http-remote"}},
+	{"ingress", []string{"http-localhost", "absent", "ftp", "garbage", "nohost", "nohost-oneslash", "valid+nohost", "https+localhost", "http-localhost-upper", "http-localhost-prefix", "http-localhost+prefix", "http-remote"}},
 	{"clientID", []string{"false"}}, {"jwk", []string{"absent", "malformed"}}, {"secret", []string{"true"}}, {"wellKnown", []string{"absent", "unreachable"}},
 	{"mode", []string{"server", "proxy", "badmode"}}, {"redis", []string{"ok", "unreachable"}}, {"cookieName", []string{"false"}}, {"serverURL", []string{"bad"}},
 	{"domain", []string{"false"}}, {"defaultURL", []string{"bad"}}, {"secure", []string{"false"}}, {"sameSite", []string{"Bogus"}},
@@ -288,6 +288,10 @@ func runC20(c *ctx) {
 				settings["ingress"] = "app.example.com/no-scheme"
 			case "nohost":
 				settings["ingress"] = "https:///path-only"
+			case "nohost-oneslash":
+				settings["ingress"] = "https:/app.example.com"
+			case "valid+nohost":
+				settings["ingress"] = "https://app.example.com,http:///"
 			case "https+localhost":
 				settings["ingress"] = "https://app.example.com,http://localhost:3000"
 			case "http-localhost-upper":
@@ -461,16 +465,27 @@ func runC20(c *ctx) {
 					break loop
 				default:
 				}
-				// "listening" = THIS wonderwall answers an HTTP request on its bind address (its /oauth2/ping says pong)
+				// "listening" = THIS wonderwall answers an HTTP request on its bind address (its /oauth2/ping says pong) - the endpoint lives under the path
+				// prefix of each configured ingress, whatever else that ingress looks like
 				hc := &http.Client{Timeout: 300 * time.Millisecond}
-				if resp, err := hc.Get("http://" + bind + "/oauth2/ping"); err == nil {
-					buf := make([]byte, 8)
-					n, _ := resp.Body.Read(buf)
-					resp.Body.Close()
-					if resp.StatusCode == 200 && string(buf[:n]) == "pong" {
-						listening = true
-						break
+				pingPaths := []string{"/oauth2/ping"}
+				for _, in := range strings.Split(settings["ingress"], ",") {
+					if iu, err := url.Parse(strings.TrimSpace(in)); err == nil && strings.Trim(iu.Path, "/") != "" {
+						pingPaths = append(pingPaths, "/"+strings.Trim(iu.Path, "/")+"/oauth2/ping")
 					}
+				}
+				for _, pp := range pingPaths {
+					if resp, err := hc.Get("http://" + bind + pp); err == nil {
+						buf := make([]byte, 8)
+						n, _ := resp.Body.Read(buf)
+						resp.Body.Close()
+						if resp.StatusCode == 200 && string(buf[:n]) == "pong" {
+							listening = true
+						}
+					}
+				}
+				if listening {
+					break
 				}
 				time.Sleep(20 * time.Millisecond)
 			}
